@@ -12,7 +12,7 @@ class Undecided(Exception):
     pass
 
 
-def eval_fn(P, f, atoms, args=None, depth=0):
+def eval_fn(P, f, atoms, args=None, depth=0, start=0, stop=None):
     """value of function f when every atom (regex on the shown expression -> bool | variant label) has the given value;
     args: {param index: value}.  Raises Undecided when the function tests something that is not an atom."""
     args = args or {}
@@ -43,6 +43,19 @@ def eval_fn(P, f, atoms, args=None, depth=0):
             if isinstance(cl, tuple) and cl and cl[0] in ('closure', 'fnref') and cl[1] in P.fns:
                 return eval_fn(P, P.fns[cl[1]], atoms, None, depth + 1)
             raise Undecided('call of an unknown closure')
+        if e[0] == 'callptr':
+            # a predicate handed in as a function pointer: a named function is the call of that function (and may be an atom),
+            # a closure is evaluated on the same atoms
+            cl = atom(e[1])
+            if cl is None and strip(e[1])[0] == 'arg':
+                cl = args.get(strip(e[1])[1])
+            if cl is None and strip(e[1])[0] == 'fnref':
+                cl = strip(e[1])
+            if isinstance(cl, tuple) and cl and cl[0] == 'fnref':
+                return ev(('call', cl[1], list(e[2]), cl[1], cl[1]))
+            if isinstance(cl, tuple) and cl and cl[0] == 'closure' and cl[1] in P.fns:
+                return eval_fn(P, P.fns[cl[1]], atoms, None, depth + 1)
+            raise Undecided('call through an unknown function pointer')
         if e[0] == 'int':
             return bool(e[1]) if (len(e) > 2 and e[2] == 'bool') else e[1]
         if e[0] == 'arg' and e[1] in args:
@@ -74,12 +87,15 @@ def eval_fn(P, f, atoms, args=None, depth=0):
         raise Undecided(show(e)[:80])
 
     sw = {s['block']: s for s in f.switches()}
-    b = 0
+    b = start
+    stop = stop or {}
     seen = set()
     exits = {x['block']: x for x in f.exits()}
     steps = 0
     while steps < 200:
         steps += 1
+        if b in stop:
+            return stop[b]      # (walk of a loop body: reaching the push keeps the element, reaching the latch / header drops it)
         # values assigned along the walked path (bool temporaries that merge the arms of `&&` / `||`)
         if hasattr(f, 'blocks') and not isinstance(f, _Substituted):
             for st in f.blocks[b]['stmts']:
@@ -242,6 +258,31 @@ def run(ctx):
                 f = g
                 e = strip(expand(g, g.exits()[0]['expr'])) if len(g.exits()) == 1 else None
                 hops += 1
+            e_raw = strip(f.exits()[0]['expr']) if len(f.exits()) == 1 else None
+            lbv = loop_built(f, e_raw[1]) if (e_raw is not None and e_raw[0] == 'var') else None
+            if lbv and len(lbv.get('pushes', [lbv['push']])) == 1:
+                # the same list built by a loop with one push: which (predefined, resolved) combinations reach the push
+                h_, body_, latches_ = lbv['loop']
+                src_ = strip(expand(f, lbv['source']))
+                over_ = any(isinstance(x, tuple) and x[0] == 'field' and x[2] == 'types' for x in walk(src_)) and \
+                    not any(re.search(r'Iterator::(skip|take|step_by|take_while|skip_while|rev|filter|filter_map)$', c_[3]) for c_ in calls_in(src_))
+                some_t = [tgt for s_ in f.switches() if s_['block'] in body_ and s_['cond'][0] == 'discr' and is_call(strip(s_['cond'][1]), 'Iterator::next') for lab, tgt in s_['edges'] if lab == 'Some']
+                pb = lbv['push'] if isinstance(lbv['push'], int) else lbv['push']['block']
+                t = {}
+                if over_ and len(some_t) == 1:
+                    for p_, r_ in BB:
+                        atoms = [(r'is_predefined\(', p_), (r'is_resolved\(', r_)]
+                        try:
+                            t[(p_, r_)] = eval_fn(P, f, atoms, dict(args), 0, some_t[0], dict([(pb, True), (h_, False)] + [(l_, False) for l_ in latches_]))
+                        except Undecided as u:
+                            t[(p_, r_)] = 'undecided: %s' % u
+                    el = strip(expand(f, lbv['elem']))
+                    while el[0] == 'call' and el[2] and re.search(r'(::clone|::to_owned)$', el[1]):
+                        el = strip(el[2][0])
+                    okm = el[0] == 'field' and el[2] == '0' and any(isinstance(y, tuple) and y[0] == 'payload' and y[2] == 'Some' for y in walk(el))
+                    ok = all(t.get((p_, r_)) is want(p_, r_) for p_, r_ in BB) and okm
+                    det = 'loop form; table (predefined, resolved) -> pushed: %s; pushes the entry\'s own key: %s' % ({k: v for k, v in sorted(t.items())}, okm)
+                e = None
             flt = [c_ for c_ in calls_in(e)] if e is not None else []
             fl = [c_ for c_ in flt if c_[3].endswith('Iterator::filter') or c_[3].endswith('Iterator::filter_map')]
             bad = [short(c_[3]) for c_ in flt if re.search(r'Iterator::(skip|take|step_by|take_while|skip_while|rev)$', c_[3])]
